@@ -766,7 +766,7 @@ theorem fstring_spec (B : Builtins) (hB : B.ctor = constructType X now) (env : E
                 | .error k => .error (.err k)),
         log := vals.2 } := by
   intro vals
-  have h := run_segs X now B (runAt B b) (runAt B b) env hB hs args hargs [] [] (by simp) [] log
+  have h := run_segs X now B (runAt B b) (runFresh B) env hB hs args hargs [] [] (by simp) [] log
     (blockFuel (args.flatMap segCode ++ [.fmt args.length]))
     (by have := length_segs args
         simp only [blockFuel, List.length_append, this, List.length_cons, List.length_nil]; omega)
